@@ -54,6 +54,22 @@ def derived_queries(prog: Program) -> RuleResult:
                 foreign[0],
             )
             continue
+        # a query answers from the index alone: the indexed tree may be a clade of a larger tree, where the
+        # surroundings of a node (`.up` of the indexed root, `get_tree_root()`) lie outside what was indexed
+        outside = [
+            n for n in ast.walk(fn)
+            if isinstance(n, ast.Attribute) and isinstance(n.value, ast.Name) and n.value.id in params
+            and n.attr in ("up", "get_ancestors", "iter_ancestors", "get_tree_root", "is_root", "get_common_ancestor")
+        ]
+        if outside:
+            res.fail(
+                construct,
+                f"`{short(outside[0])}` is read from the node itself, not from the index: when the indexed tree is a clade of a "
+                "larger tree, the parent of its root is a node the index does not know (and `is None` does not recognise that root)",
+                mod,
+                outside[0],
+            )
+            continue
         bad = None
         count = 0
         for a in model.nodes:
